@@ -112,6 +112,8 @@ class Sys(e2.DevSys):
         if c.get("lifecycle") and nfind == 1 and not any(e == "evidence" for e in getattr(self, "extra", ())):
             # an SD message from the requester that reveals its reboot, while an answer to it may be pending / collected
             acts.append(("evidence", 0))
+            if "nack-sub" not in getattr(self, "extra", ()):
+                acts.append(("nack-sub", 0))  # ... and a Subscribe of the requester that is refused (unknown eventgroup)
         if c.get("lifecycle") and nfind == 0:
             if self.started:
                 acts += [("ann-stop",), ("stop+find", 0), ("stop+find", 1), ("connlost",)]
@@ -155,6 +157,12 @@ class Sys(e2.DevSys):
             self.started = False
             self.stopped_at = now
             self.prot.connection_lost(None)
+        elif act[0] == "nack-sub":
+            self.extra = getattr(self, "extra", ()) + ("nack-sub",)
+            self.session += 1
+            sp = self.specs[0]
+            data = refcodec.sd_message(self.session, [("subscribe", sp[0], sp[1], sp[2], 3, 99, (refcodec.v4("192.0.2.71", 4071),), ())])
+            self.prot.datagram_received(data, REQ, False)
         elif act[0] == "svc-stop":
             self.inst_stopped = dict(getattr(self, "inst_stopped", {}))
             self.inst_stopped[act[1]] = now
@@ -302,7 +310,9 @@ def restrict(thorough, cfg, devs, p, k):
             return p[2][0] in ("find", "ann-start") and p[0] - devs[0][0] <= (1.2 if thorough else 0.3)
         if first == "find":
             # a stop shortly after a find (while the delayed answer is pending)
-            if p[2][0] in ("ann-stop", "connlost", "evidence", "svc-stop"):
+            if p[2][0] == "nack-sub" and not thorough:
+                return p[0] - devs[0][0] <= 0.1 and devs[0][0] <= 1.3 and tuple(devs[0][2][2:]) == tuple(cfg["finds"][0])
+            if p[2][0] in ("ann-stop", "connlost", "evidence", "svc-stop", "nack-sub"):
                 return p[0] - devs[0][0] <= 0.1
             # a unicast request while the delayed answer to a multicast request is pending: its answer overtakes
             return p[2][0] == "find" and devs[0][2][1] == 1 and p[2][1] == 0 and p[0] - devs[0][0] <= 0.07 \
